@@ -11,10 +11,10 @@ import scen_actor
 import tlaval
 import vlib
 
-FIX = "FixD1 = TRUE FixD2 = TRUE FixD4 = TRUE FixD5 = TRUE FixD12 = TRUE FixD13 = TRUE"
-INVS = ("C02_NoOverlap C04_Lifecycle C04_SpawnRet C05_AtMostOnce C05_InOrder C05_Numbered C05_Complete "
-        "C06_Alive C06_Bounded C06_Clean C07_DoneAfterStopKF C07_Drained C07_DrainedActed C07_ActsOnSound C07_AllDoneKF "
-        "C08_KidsFirstKF C08_Children C08_NotDoneEarlyKF C13_Chain")
+FIX = "FixD1 = TRUE FixD2 = TRUE FixD4 = TRUE FixD5 = TRUE FixD12 = TRUE FixD13 = TRUE FixD14 = TRUE"
+INVS = ("C02_NoOverlap C04_Lifecycle C04_SpawnRet C05_AtMostOnce C05_InOrder C05_Fresh C05_Numbered C05_Complete "
+        "C06_Alive C06_Bounded C06_CleanKF C07_DoneAfterStopKF C07_Drained C07_DrainedActed C07_ActsOnSound C07_AllDoneKF "
+        "C08_KidsFirstKF C08_Terminal C08_Children C08_NotDoneEarlyKF C13_Chain")
 
 A1 = {"A": {"parent": "", "kids": [], "maxRestarts": 1}}
 A0 = {"A": {"parent": "", "kids": [], "maxRestarts": 0}}
@@ -39,38 +39,59 @@ def T(**kw):
     return {k: {"target": v[0], "graceful": v[1]} for k, v in kw.items()}
 
 
-# name -> (TLA constants, python mirror (actors, toks), trace constants)
+def I(actors, parent, roots, kids, mr, nmsg, sendto, toks, tgt, grace, faults, crash="AllKinds", batch=4, ifaults=0):
+    return ("Actors <- %s Parent <- %s Roots <- %s KidsOf <- %s MaxRestarts <- %s NMsg = %d SendTo <- %s Toks <- %s TokTarget <- %s "
+            "TokGraceful <- %s Faults = %d IFaults = %d CrashKinds <- %s Batch = %d" % (
+                actors, parent, roots, kids, mr, nmsg, sendto, toks, tgt, grace, faults, ifaults, crash, batch))
+
+
+def one(mr, nmsg, toks, grace, faults, **kw):
+    return I("One", "ParentOne", "One", "KidsNone1", mr, nmsg, "One", toks, "TgtA", grace, faults, **kw)
+
+
+# name -> (TLA constants, python mirror of the actors, python mirror of the tokens)
 INST = {
-    "one_a": ("Actors <- One Parent <- ParentOne Roots <- One KidsOf <- KidsNone1 MaxRestarts <- MR1_1 NMsg = 2 SendTo <- One "
-              "Toks <- T1 TokTarget <- TgtA TokGraceful <- G_t1 Faults = 1 CrashKinds <- AllKinds Batch = 4", A1, T(t1=("A", True))),
-    "one_b": ("Actors <- One Parent <- ParentOne Roots <- One KidsOf <- KidsNone1 MaxRestarts <- MR1_1 NMsg = 2 SendTo <- One "
-              "Toks <- T2 TokTarget <- TgtA TokGraceful <- G_t1 Faults = 0 CrashKinds <- AllKinds Batch = 4", A1, T(t1=("A", True), t2=("A", False))),
-    "one_c": ("Actors <- One Parent <- ParentOne Roots <- One KidsOf <- KidsNone1 MaxRestarts <- MR1_1 NMsg = 1 SendTo <- One "
-              "Toks <- T1 TokTarget <- TgtA TokGraceful <- G_t1 Faults = 2 CrashKinds <- AllKinds Batch = 4", A1, T(t1=("A", True))),
-    "one_d": ("Actors <- One Parent <- ParentOne Roots <- One KidsOf <- KidsNone1 MaxRestarts <- MR0_1 NMsg = 2 SendTo <- One "
-              "Toks <- T1 TokTarget <- TgtA TokGraceful <- G_none Faults = 1 CrashKinds <- AllKinds Batch = 4", A0, T(t1=("A", False))),
-    "one_e": ("Actors <- One Parent <- ParentOne Roots <- One KidsOf <- KidsNone1 MaxRestarts <- MR2_1 NMsg = 3 SendTo <- One "
-              "Toks <- T1 TokTarget <- TgtA TokGraceful <- G_t1 Faults = 2 CrashKinds <- UserOnly Batch = 2", A2, T(t1=("A", True))),
-    "pair_a": ("Actors <- Pair Parent <- ParentPair Roots <- RootP KidsOf <- KidsPair MaxRestarts <- MRc0p1 NMsg = 1 SendTo <- SendC "
-               "Toks <- T1 TokTarget <- T1onP TokGraceful <- G_t1 Faults = 1 CrashKinds <- AllKinds Batch = 4", pair(1, 0), T(t1=("P", True))),
-    "chain_a": ("Actors <- Chain Parent <- ParentChain Roots <- RootP KidsOf <- KidsChain MaxRestarts <- MR0_3 NMsg = 1 SendTo <- SendG "
-                "Toks <- T1 TokTarget <- T1onP TokGraceful <- G_t1 Faults = 0 CrashKinds <- AllKinds Batch = 4", chain(0), T(t1=("P", True))),
-    "chain_b": ("Actors <- Chain Parent <- ParentChain Roots <- RootP KidsOf <- KidsChain MaxRestarts <- MR0_3 NMsg = 0 SendTo <- SendG "
-                "Toks <- T2 TokTarget <- TgtCP TokGraceful <- G_all Faults = 0 CrashKinds <- AllKinds Batch = 4", chain(0),
+    "one_a": (one("MR1_1", 2, "T1", "G_t1", 1), A1, T(t1=("A", True))),
+    "one_b": (one("MR1_1", 2, "T2", "G_t1", 0), A1, T(t1=("A", True), t2=("A", False))),
+    "one_c": (one("MR1_1", 1, "T1", "G_t1", 2), A1, T(t1=("A", True))),
+    "one_d": (one("MR0_1", 2, "T1", "G_none", 1), A0, T(t1=("A", False))),
+    "one_e": (one("MR2_1", 3, "T1", "G_t1", 2, crash="UserOnly", batch=2), A2, T(t1=("A", True))),
+    # a failing message with another one queued behind it, then a failure of the next incarnation in Initialized/Started
+    "one_f": (one("MR2_1", 2, "T0", "G_t1", 2), A2, T()),
+    # *InternalError panics: restarted without touching the budget, also when the budget is already used up
+    "one_g": (one("MR0_1", 1, "T1", "G_t1", 1, ifaults=1), A0, T(t1=("A", True))),
+    "one_h": (one("MR1_1", 2, "T0", "G_t1", 1, ifaults=2, crash="UserOnly"), A1, T()),
+    # the Stopped handler itself panics (after poison, after stop, after a crash)
+    "one_s": (one("MR1_1", 1, "T1", "G_t1", 2, crash="StoppedAndUser"), A1, T(t1=("A", True))),
+    "pair_a": (I("Pair", "ParentPair", "RootP", "KidsPair", "MRc0p1", 1, "SendC", "T1", "T1onP", "G_t1", 1), pair(1, 0), T(t1=("P", True))),
+    "pair_b": (I("Pair", "ParentPair", "RootP", "KidsPair", "MRc1p0", 1, "SendP", "T1", "T1onC", "G_t1", 1), pair(0, 1), T(t1=("C", True))),
+    "chain_a": (I("Chain", "ParentChain", "RootP", "KidsChain", "MR0_3", 1, "SendG", "T1", "T1onP", "G_t1", 0), chain(0), T(t1=("P", True))),
+    "chain_b": (I("Chain", "ParentChain", "RootP", "KidsChain", "MR0_3", 0, "SendG", "T2", "TgtCP", "G_all", 0), chain(0),
                 T(t1=("C", True), t2=("P", True))),
-    "fan_a": ("Actors <- Fan Parent <- ParentFan Roots <- RootP KidsOf <- KidsFan MaxRestarts <- MR0_F NMsg = 1 SendTo <- SendC "
-              "Toks <- T1 TokTarget <- T1onP TokGraceful <- G_t1 Faults = 0 CrashKinds <- AllKinds Batch = 4", fan(0), T(t1=("P", True))),
+    "fan_a": (I("Fan", "ParentFan", "RootP", "KidsFan", "MR0_F", 1, "SendC", "T1", "T1onP", "G_t1", 0), fan(0), T(t1=("P", True))),
 }
 
+ALL_QUICK = ["one_a", "one_b", "one_c", "one_d", "one_f", "one_g", "pair_a", "chain_a", "chain_b", "fan_a"]
 PLAN = {
-    "quick": ["one_a", "one_b", "one_c", "one_d", "pair_a", "chain_a", "chain_b", "fan_a"],
-    "thorough": ["one_a", "one_b", "one_c", "one_d", "one_e", "pair_a", "chain_a", "chain_b", "fan_a"],
+    "quick": {
+        "C02": ["one_a", "one_c", "one_d", "one_f", "pair_a"],
+        "C04": ["one_a", "one_b", "one_c", "one_d", "one_g", "one_s", "pair_a"],
+        "C05": ["one_a", "one_c", "one_f", "one_g", "one_h", "one_s", "pair_a"],
+        "C06": ["one_c", "one_d", "one_f", "one_g", "pair_a", "pair_b"],
+        "C07": ["one_a", "one_b", "one_d", "one_s", "pair_a", "chain_b"],
+        "C08": ["pair_a", "pair_b", "chain_a", "chain_b", "fan_a"],
+        "C13": ["one_a", "one_c", "one_d", "one_g", "pair_a"],
+        "C12": ["one_a", "one_c", "one_d", "pair_a"],
+    },
+    "thorough": {p: ["one_a", "one_b", "one_c", "one_d", "one_e", "one_f", "one_g", "one_h", "one_s", "pair_a", "pair_b", "chain_a", "chain_b", "fan_a"]
+                 for p in ("C02", "C04", "C05", "C06", "C07", "C08", "C13", "C12")},
 }
 
 TRACE_INV = {
     "C02": ["T_C02"], "C04": ["T_C04"], "C05": ["T_C05"], "C06": ["T_C06"], "C07": ["T_C07"], "C08": ["T_C08"], "C13": ["T_C13"],
 }
 STRICT = {
+    "C06": {"T_C06_Clean_strict": "KF-PENDINGSTOP"},
     "C07": {"T_C07_DoneAfterStop_strict": "KF-STOPRACE", "T_C07_AllDone_strict": "KF-PENDINGSTOP"},
     "C08": {"T_C08_KidsFirst_strict": "KF-ORPHAN", "T_C08_NotDoneEarly_strict": "KF-ORPHAN"},
 }
@@ -196,12 +217,12 @@ def gen_scenarios(sc, inst, v, tier):
     # 1. full model (all interleavings)
     d = vlib.stage_specs(sc)
     open(os.path.join(d, "mc_%s.cfg" % inst), "w").write(model_cfg(inst, False))
-    r = vlib.tlc(sc, "MCActor.tla", "mc_%s.cfg" % inst, timeout=1500)
+    r = vlib.tlc(sc, "MCActor.tla", "mc_%s.cfg" % inst, timeout=1500, workers=4)
     v.add_tlc(r, inst + " (all interleavings)")
     if r.violated:
         raise vlib.Broken("Actor.tla violates %s on %s: model and code repairs disagree" % (r.violated, inst))
     # 2. scenario refinement, dumped
-    r, gjson, nn, ne = graphs.dump_graph(sc, "MCActor.tla", model_cfg(inst, True), "actor_" + inst)
+    r, gjson, nn, ne = graphs.dump_graph(sc, "MCActor.tla", model_cfg(inst, True), "actor_" + inst, workers=4)
     v.add_tlc(r, inst + " (scenario refinement)")
     if r.violated:
         raise vlib.Broken("Actor.tla (eager) violates %s on %s" % (r.violated, inst))
@@ -211,28 +232,25 @@ def gen_scenarios(sc, inst, v, tier):
     return pyinst, out
 
 
-def do_check(sc, binp, prop, tier):
-    v = vlib.Verdict(prop, tier)
-    cov = v.coverage
-    cov.update({"scenarios": 0, "conformant": 0, "racy_diverged": 0, "instances": [], "crashed_scenarios": 0})
-    v.assumptions += [
-        "deliveries are gated inside Receive; environment actions are issued only when every actor is parked at a gate, idle or blocked (scenario refinement of Actor.tla)",
-        "bounded instances: <= 3 actors, <= 3 user messages, <= 2 stop requests, <= 2 injected panics; middleware chains 0..3, inbox sizes 1,2,3,1024",
-        "a panic is injected only in Initialized/Started/user deliveries (not inside a Stopped handler)",
-    ]
-    kf_seen = {}
-    for inst in PLAN[tier]:
+def do_instance(binp, prop, tier, inst):
+    """everything for one instance in its own scratch directory (instances run in parallel)"""
+    sc = vlib.Scratch("%s-%s" % (prop, inst))
+    out = {"inst": inst, "tlc": [], "cov": None, "sample": None, "violations": [], "kf": set(), "nonconf": [], "broken": None}
+    try:
+        v = _Collector(out)
         pyinst, scen = gen_scenarios(sc, inst, v, tier)
         spath = sc.path("scen_%s.ndjson" % inst)
         with open(spath, "w") as f:
             f.write(pyinst.config_line() + "\n")
             for s, e, racy in scen:
+                s["racy"] = bool(racy)
                 f.write(json.dumps(s) + "\n")
         results, crashed = run_scenarios(sc, binp, spath, sc.path("res_%s.ndjson" % inst))
         byid = {r["id"]: r for r in results}
         nconf = ndiv = nracy = 0
         records = []
         order = []
+        evdiff = []
         for s, e, racy in scen:
             r = byid.get(s["id"])
             if r is None:
@@ -244,30 +262,34 @@ def do_check(sc, binp, prop, tier):
                 nracy += 1
             else:
                 ndiv += 1
-                if len(cov.setdefault("nonconformance", [])) < 4:
-                    cov["nonconformance"].append({"instance": inst, "scenario": s["id"], "why": why[:400]})
+                if len(out["nonconf"]) < 4:
+                    out["nonconf"].append({"instance": inst, "scenario": s["id"], "why": why[:400]})
+                if why.startswith("events differ") and not r["diverged"]:
+                    evdiff.append((s, r, why, e))
             records.append(normalise(r, inst))
             order.append(s)
-        cov["scenarios"] += len(records)
-        cov["traces_validated_against_impl"] += len(records)
-        cov["conformant"] += nconf
-        cov["nonconformant_runs"] += ndiv
-        cov["racy_diverged"] += nracy
-        cov["crashed_scenarios"] += len(crashed)
-        cov["instances"].append({"instance": inst, "scenarios": len(scen), "ran": len(records), "conformant": nconf,
-                                 "nonconformant": ndiv, "racy_diverged": nracy, "process_deaths": len(crashed)})
+        out["cov"] = {"instance": inst, "scenarios": len(scen), "ran": len(records), "conformant": nconf,
+                      "nonconformant": ndiv, "racy_diverged": nracy, "process_deaths": len(crashed)}
         if scen:
-            v.sample({"instance": inst, "scenario": scen[0][0]["steps"]})
+            out["sample"] = {"instance": inst, "scenario": scen[0][0]["steps"]}
         # containment: the hosting process must survive every scenario
         if crashed and prop in ("C05", "C06"):
             for k, err in crashed[:2]:
                 s = next(x for x, _, _ in scen if x["id"] == k)
                 rf = {"kind": "process-death", "instance": inst, "config": json.loads(pyinst.config_line()), "scenario": s, "stderr": err[-600:]}
                 if confirm_death(sc, binp, rf):
-                    v.violation(rf, "the hosting process died while running scenario %d of %s (panic escaped the actor): %s" % (
-                        k, inst, err.strip().splitlines()[0][:200] if err.strip() else ""))
+                    out["violations"].append((rf, "the hosting process died while running scenario %d of %s (panic escaped the actor): %s" % (
+                        k, inst, err.strip().splitlines()[0][:200] if err.strip() else "")))
         if not records:
-            continue
+            return out
+        if prop == "C12":
+            # lifecycle events: in a steered, conformant-so-far run the published events must be exactly the model's
+            for s, r, why, e in evdiff[:2]:
+                rf = {"kind": "events", "instance": inst, "config": json.loads(pyinst.config_line()), "scenario": s, "why": why,
+                      "expected_events": sorted([ev["e"], ev["a"], ev["n"]] for ev in e["events"])}
+                if confirm_events(sc, binp, inst, rf, pyinst):
+                    out["violations"].append((rf, "lifecycle events published in scenario %s of %s differ from the occurrences: %s" % (s["id"], inst, why[:300])))
+            return out
         # verdict by TLC on the recorded histories
         r = trace_check(sc, inst, records, TRACE_INV[prop], "%s_%s" % (prop, inst))
         if r.violated:
@@ -276,15 +298,71 @@ def do_check(sc, binp, prop, tier):
             rf = {"kind": "history", "instance": inst, "config": json.loads(pyinst.config_line()), "scenario": s,
                   "invariant": r.violated, "recorded": records[l - 1] if l else None}
             if confirm_history(sc, binp, prop, inst, rf):
-                v.violation(rf, "%s fails on the history recorded from scenario %s of instance %s" % (r.violated, s and s["id"], inst))
+                out["violations"].append((rf, "%s fails on the history recorded from scenario %s of instance %s" % (r.violated, s and s["id"], inst)))
             else:
                 raise vlib.Broken("violation of %s on %s scenario %s did not reproduce" % (r.violated, inst, s and s["id"]))
         if prop in STRICT:
             r2 = trace_check(sc, inst, records, list(STRICT[prop]), "%s_%s_strict" % (prop, inst), cont=True)
             for name in violated_names(r2):
-                kf_seen[STRICT[prop][name]] = True
-        if len(v.violations) >= 3:
-            break
+                out["kf"].add(STRICT[prop][name])
+        return out
+    except vlib.Broken as e:
+        out["broken"] = str(e)
+        return out
+    finally:
+        sc.cleanup()
+
+
+class _Collector:
+    """stand-in for Verdict inside a worker thread"""
+
+    def __init__(self, out):
+        self.out = out
+
+    def add_tlc(self, r, label):
+        self.out["tlc"].append((r, label))
+
+
+def do_check(sc, binp, prop, tier, v=None):
+    from concurrent.futures import ThreadPoolExecutor
+    finish = v is None
+    v = v or vlib.Verdict(prop, tier)
+    cov = v.coverage
+    cov.update({"scenarios": 0, "conformant": 0, "racy_diverged": 0, "instances": [], "crashed_scenarios": 0})
+    v.assumptions += [
+        "deliveries are gated inside Receive; environment actions are issued only when every actor is parked at a gate, idle or blocked (scenario refinement of Actor.tla)",
+        "bounded instances: <= 3 actors, <= 3 user messages, <= 2 stop requests, <= 2 injected panics (plain or *InternalError); middleware chains 0..3 built from a shared base slice, inbox sizes 1,2,3,1024, root spawned with a live or an already cancelled context",
+        "panics are injected in Initialized / Started / user deliveries and (instance one_s) in Stopped handlers",
+    ]
+    kf_seen = {}
+    insts = PLAN[tier][prop]
+    with ThreadPoolExecutor(max_workers=min(len(insts), max(2, vlib.ncpu() // 4))) as ex:
+        outs = list(ex.map(lambda i: do_instance(binp, prop, tier, i), insts))
+    for out in outs:
+        if out["broken"]:
+            raise vlib.Broken(out["broken"])
+    for out in outs:
+        for r, label in out["tlc"]:
+            v.add_tlc(r, label)
+        c = out["cov"]
+        if c:
+            cov["scenarios"] += c["ran"]
+            cov["traces_validated_against_impl"] += c["ran"]
+            cov["conformant"] += c["conformant"]
+            cov["nonconformant_runs"] += c["nonconformant"]
+            cov["racy_diverged"] += c["racy_diverged"]
+            cov["crashed_scenarios"] += c["process_deaths"]
+            cov["instances"].append(c)
+        if out["nonconf"]:
+            cov.setdefault("nonconformance", [])
+            cov["nonconformance"] += out["nonconf"][:max(0, 4 - len(cov["nonconformance"]))]
+        if out["sample"]:
+            v.sample(out["sample"])
+        for rf, text in out["violations"]:
+            if len(v.violations) < 3:
+                v.violation(rf, text)
+        for sig in out["kf"]:
+            kf_seen[sig] = True
     for k in vlib.known_findings(prop):
         if kf_seen.get(k["sig"]):
             v.known_seen[k["sig"]] = k["what"]
@@ -292,7 +370,23 @@ def do_check(sc, binp, prop, tier):
     for sig in kf_seen:
         # a strict predicate fails but the file does not list the signature: that is an unlisted violation
         v.violation({"kind": "unlisted-known-finding", "sig": sig}, "strict predicate fails with signature %s which KNOWN_FINDINGS.txt does not list" % sig)
-    return v.finish()
+    return v.finish() if finish else None
+
+
+def confirm_events(sc, binp, inst, rf, pyinst):
+    """re-run the scenario twice: the event mismatch must reproduce in a steered run"""
+    for _ in range(2):
+        p = vlib.run([binp, "-in", write_single(sc, rf), "-out", sc.path("single.out")], ok_codes=None, timeout=120)
+        if p.returncode != 0:
+            return False
+        recs = [json.loads(l) for l in open(sc.path("single.out")) if l.strip()]
+        if not recs or recs[0]["diverged"]:
+            return False
+        exp = rf.get("expected_events")
+        got = sorted([e["e"], e["a"], e["n"]] for e in recs[0]["events"])
+        if exp is not None and got == exp:
+            return False
+    return True
 
 
 def write_single(sc, rf):
@@ -329,3 +423,4 @@ def do_replay(sc, binp, prop, path):
 
 
 CHECKS = {p: run for p in ("C04", "C05", "C06", "C07", "C08", "C13")}
+CHECKS_EVENTS = run   # C12 (lifecycle-event part) is dispatched from fam_events
